@@ -64,6 +64,6 @@ Check (C11_at_most_one_answer :
 Check (C11_open_answered_refuted :
   exists (c : cfg) (ops : list op) (s : st) (owed : peer -> bool),
     ledger c init (fun _ => false) ops = Some (s, owed) /\ owed 0 = true /\ obligation s 0 = false).
-Check (C11_open_answered_needs_validation_answers_refuted :
+Check (C11_open_answered_class3_refuted :
   exists (c : cfg) (ops : list op) (s : st) (owed : peer -> bool),
     ledger c init (fun _ => false) ops = Some (s, owed) /\ owed 0 = true /\ in_progress (ps s 0) = false).
